@@ -24,22 +24,22 @@ PROPS = {
                 "active <= nb; the fixed instance count is compared against the need before it is used",
         not_decided="every >= inequality numerically; float cancellation in the storage negativity check"),
     "C05": dict(
-        rules=["R-TXN", "R-MIRROR", "R-ZIP", "R-WRITE"],
+        rules=["R-TXN:sim", "R-MIRROR", "R-ZIP", "R-WRITE"],
         decided="exceptional exits of a simulation restore what was replaced; set/reset are mirror images; "
                 "baseline/simulated lists are built in lockstep; rules write only their own attribute",
         not_decided="identity of every object after arbitrary toggle sequences"),
     "C06": dict(
-        rules=["R-ZIP", "R-TXN"],
+        rules=["R-ZIP", "R-TXN:date"],
         decided="twin pairing lists are built in lockstep; the naive-date and outside-period rejections precede "
                 "any mutation (or are rolled back)",
         not_decided="equality with the really-updated model; 'no hour before the date'"),
     "C07": dict(
-        rules=["R-OPREC", "R-OPPAR", "R-INPLACE", "R-LABEL"],
+        rules=["R-OPREC", "R-OPPAR", "R-INPLACE", "R-LABEL", "R-SUMMARY"],
         decided="recorded operator and operand order = computed ones; parents recorded; no unrecorded in-place "
                 "numeric change; every assigned result labelled",
         not_decided="numeric re-evaluation of each node"),
     "C08": dict(
-        rules=["R-PROV", "R-EDGE", "R-ID", "R-ACYC"],
+        rules=["R-PROV", "R-EDGE", "R-ID", "R-ACYC", "R-SUMMARY"],
         decided="completeness (every dependency is a transitive recorded ancestor), both-ends bookkeeping has single "
                 "writers and paired loops, dedup ids injective, attribute graph acyclic at class level",
         not_decided="correctness of attr_updates_chain on arbitrary graphs"),
@@ -68,13 +68,13 @@ PROPS = {
                 "total, class table covers the reachable classes",
         not_decided="numeric equality after reload, byte-equality of re-export, liveness of the loaded system"),
     "C14": dict(
-        rules=["R-TXN", "R-VAL-FORMS", "R-VAL-SIB", "R-VAL-DEF", "R-ENTRY"],
+        rules=["R-TXN:val", "R-VAL-FORMS", "R-VAL-SIB", "R-VAL-DEF", "R-ENTRY"],
         decided="validation precedes mutation or is rolled back; validator dispatch covers every annotation form; "
                 "both entry paths call both validators; defaults table covers quantity parameters; __setattr__ "
                 "overrides delegate",
         not_decided="nothing stated as undecided; the checks are structural"),
     "C15": dict(
-        rules=["R-TXN"],
+        rules=["R-TXN:recompute"],
         decided="an exception leaving the recompute loop restores every value already replaced",
         not_decided="behaviour of arbitrary later histories"),
     "C16": dict(
